@@ -107,7 +107,7 @@ func checkResult(p *Program, res Result, mode string, cd codec) []Issue {
 	if mode == "valid" {
 		return nil
 	}
-	m := Model{Set: p.Set, StrictCtx: mode == "fullctx"}
+	m := Model{Set: p.Set, StrictCtx: mode == "fullctx", Def: &[]ExpField{{DefaultCtxKey, strS("default-context-logger")}}}
 	root := &LoggerModel{Level: -1}
 	lms := make([]*LoggerModel, len(p.Steps))
 	get := func(i int) *LoggerModel {
